@@ -355,6 +355,9 @@ func c07Break(c *h.Ctx) {
 func c07BlindsUnset(c *h.Ctx) {
 	cfg := h.GenTable(c.R, h.GenOpts{MinSeats: 3, MinPlayers: 3, DeepOnly: true, Modes: []string{"ct", "cash"}})
 	cfg.Level = 0
+	if c.R.Intn(2) == 0 {
+		cfg.Ante, cfg.Dealer, cfg.SB, cfg.BB = 0, 0, 0, 0 // the zero value of a blind state
+	}
 	s, err := h.NewSim(h.SimConfig{Setting: cfg.Setting(false), Interval: 0}, c.R.Int63())
 	if err != nil {
 		c.Inconclusive(err.Error())
@@ -371,8 +374,13 @@ func c07BlindsUnset(c *h.Ctx) {
 	}
 	s.SignalAll(h.SetupIDs(e.Setup))
 	opened := false
-	// the engine retries for 30 s; the gate callback returns afterwards
-	s.WaitFor(45*time.Second, func(e *h.Ev) bool {
+	// the engine retries every 3 s for 30 s and the gate callback returns afterwards; the quick tier only watches
+	// the first attempt and the first retry (a hand that opens later is missed, never invented)
+	watch := 45 * time.Second
+	if !c.Thorough() {
+		watch = 4500 * time.Millisecond
+	}
+	s.WaitFor(watch, func(e *h.Ev) bool {
 		if e.Kind == h.EvTable && e.T != nil && e.T.State.Status == pt.TableStateStatus_TableGameOpened {
 			opened = true
 		}
@@ -444,6 +452,65 @@ func c07DoubleFire(c *h.Ctx) {
 	c.Sample(map[string]interface{}{"kind": "repeated set-up right after the first gate fire", "trials": trials, "cfg": p.Cfg})
 }
 
+// c07PauseMidHand: the table is paused while a hand runs and an open-game trigger completes: the running hand is
+// unsettled, so no new hand may open (game count and game id stay).
+func c07PauseMidHand(c *h.Ctx) {
+	obs := newC07Obs()
+	cfg := h.GenTable(c.R, h.GenOpts{MinSeats: 3, MinPlayers: 3, DeepOnly: true, Modes: []string{"ct", "cash", "mtt"}})
+	ss, err := h.StartSession(cfg, c.R, nil)
+	if err != nil {
+		c.Inconclusive("start: " + err.Error())
+		return
+	}
+	s := ss.S
+	done := false
+	turns := 0
+	var gc0 int
+	var gid0 string
+	sc := &h.Script{Policy: h.CallStation, MaxWait: 12 * time.Second}
+	sc.Stop = func() bool { return done }
+	sc.BeforeAct = func(e *h.Ev, gp int, pid string) bool {
+		turns++
+		if turns < 2 {
+			return true
+		}
+		gc0, gid0 = e.T.State.GameCount, e.T.State.GameState.GameID
+		s.TE.PauseTable()
+		obs.external = true
+		parts := map[string]int{}
+		for i, id := range inAndChips(e.T) {
+			parts[id] = i
+		}
+		s.TE.SetUpTableGame(gc0+1, parts)
+		for id := range parts {
+			s.TE.PlayerSettlementFinish(id)
+		}
+		done = true
+		return false
+	}
+	ss.NextHand(sc)
+	// the gate fires and its callback returns; nothing may have opened
+	s.WaitFor(4*time.Second, func(e *h.Ev) bool { return e.Kind == h.EvGateRet }, nil)
+	time.Sleep(5 * time.Millisecond)
+	t := s.Table()
+	if !done {
+		c.Inconclusive("the hand never reached its second turn")
+		return
+	}
+	gidNow := ""
+	if t.State.GameState != nil {
+		gidNow = t.State.GameState.GameID
+	}
+	if t.State.GameCount != gc0 || gidNow != gid0 {
+		c.Violate("C07/hand-opened-while-previous-unsettled/after-pause-mid-hand", fmt.Sprintf("the table was paused while hand %d (game %s) was running and the next hand was set up: game count is now %d, game id %s, although hand %d was never settled", gc0, gid0, t.State.GameCount, gidNow, gc0), map[string]interface{}{"cfg": cfg, "trace": s.TraceTail(40)})
+		return
+	}
+	c.Feature("pause-mid-hand-then-set-up")
+	c.Nontrivial()
+	c.FP("pause-mid-hand", fmt.Sprintf("%+v", cfg))
+	c.Sample(map[string]interface{}{"kind": "pause while a hand runs, then a completed open-game trigger", "cfg": cfg})
+}
+
 func init() {
 	h.Register(&h.Check{
 		ID:        "C07",
@@ -458,9 +525,7 @@ func init() {
 		},
 		RequiredFeatures: func(tier string) []string {
 			f := []string{"lifecycle:interval=0", "lifecycle:interval=1", "close-after-set-up", "release-after-set-up", "close-during-continue-delay", "release-during-continue-delay", "break-after-set-up", "double-fire", "paused-after-hand"}
-			if tier == "thorough" {
-				f = append(f, "blinds-unset")
-			}
+			f = append(f, "blinds-unset", "pause-mid-hand-then-set-up")
 			return f
 		},
 		CaseTimeout: 240e9,
@@ -468,8 +533,10 @@ func init() {
 		Run: func(c *h.Ctx) {
 			k := c.Case % 16
 			switch {
-			case k == 15 && c.Thorough() && c.Case%64 == 15:
+			case k == 15 && c.Case%32 == 15:
 				c07BlindsUnset(c)
+			case k == 14:
+				c07PauseMidHand(c)
 			case k < 8:
 				c07Normal(c, 0)
 			case k < 10:
